@@ -413,7 +413,7 @@ static int run_cmd(struct ctx *c, char **t, int nt) {
   if (!strcmp(op, "keys")) { int h = HND(1); char *g = tokstr(ARG(2), NULL); size_t n = 0; char **k = NULL; e = econf_getKeys(c->H[h], g, &n, &k);
     fprintf(o, "{\"op\":\"keys\",\"h\":%d", h); jrc(o, e); fputs(",\"out\":", o); jarr(o, e ? NULL : k); fprintf(o, ",\"n\":%zu}\n", n);
     if (!e) econf_freeArray(k); free(g); return 0; }
-  if (!strcmp(op, "path")) { int h = HND(1); char *p = econf_getPath(c->H[h]); fprintf(o, "{\"op\":\"path\",\"h\":%d,\"out\":", h); js(o, p); fputs("}\n", o); free(p); return 0; }
+  if (!strcmp(op, "path")) { int h = HND(1); char *p = c->H[h] ? econf_getPath(c->H[h]) : NULL;   /* no object: nothing to ask */ fprintf(o, "{\"op\":\"path\",\"h\":%d,\"out\":", h); js(o, p); fputs("}\n", o); free(p); return 0; }
   if (!strcmp(op, "tags")) { int h = HND(1); fprintf(o, "{\"op\":\"tags\",\"h\":%d,\"dtag\":%d,\"ctag\":%d}\n", h,
       (unsigned char)econf_delimiter_tag(c->H[h]), (unsigned char)econf_comment_tag(c->H[h])); return 0; }
   if (!strcmp(op, "settags")) { int h = HND(1); econf_set_delimiter_tag(c->H[h], tokchr(ARG(2))); econf_set_comment_tag(c->H[h], tokchr(ARG(3)));
